@@ -63,3 +63,17 @@ Proof.
   f_equal; [apply vlist_eqb_eq | apply vop_eqb_eq]; assumption.
 Qed.
 
+
+(* literal operands exported for the literal-shape families (mirrors c03_export.lit_values) *)
+Fixpoint dedup (l : list Z) (seen : list Z) : list Z :=
+  match l with
+  | [] => []
+  | v :: r => if existsb (Z.eqb v) seen then dedup r seen else v :: dedup r (v :: seen)
+  end.
+Definition lit_values (T : nty) : list Z :=
+  dedup (filter (in_rangeb T)
+                (app [ty_lo T; -1; 0; 1; 7; ty_hi T] (if ndec T then [10 ^ 10; - 10 ^ 10] else []))) [].
+Definition ops5 : list aop := [AAdd; ASub; AMul; ADiv; AMod].
+
+Definition shape_okb (T : nty) (sh lit : Z) : bool :=
+  (sh =? 0) || (((sh =? 1) || (sh =? 2)) && in_rangeb T lit).
